@@ -27,6 +27,7 @@ import (
 	erc20types "github.com/functionx/fx-core/v8/x/erc20/types"
 
 	bx "fxverif/harness/bridgex"
+	"fxverif/harness/evmx"
 )
 
 var (
@@ -154,13 +155,21 @@ func mixerCodeX(items []item) []byte {
 
 type mixState struct{ m, s, e, ts, al, esc, u, ua *big.Int }
 
-func (r *run) mixState(token common.Address) mixState {
+func (r *run) mixState(token common.Address) mixState { return r.mixStateK(token, 0, 1) }
+
+// mixStateK: kind 0 (module-owned token of denomination g): esc = coins of g escrowed by the erc20 module; kind 1
+// (externally-owned token): esc = supply of the pair's coin summed over its denominations (base + bridge denomination
+// 100+10g) — the quantity the module's ERC-20 escrow `e` has to equal
+func (r *run) mixStateK(token common.Address, kind, g int) mixState {
 	var res struct{ Value *big.Int }
 	al := big.NewInt(0)
 	if err := r.w.S.App.EvmKeeper.QueryContract(r.ctx(), r.owner.Address(), token, contract.GetFIP20().ABI, "allowance", &res, mixerAddr, crosschaintypes.GetAddress()); err == nil {
 		al = res.Value
 	}
-	esc := r.w.S.App.BankKeeper.GetBalance(r.ctx(), bx.ModuleAddr(erc20types.ModuleName), baseName(1)).Amount.BigInt()
+	esc := r.w.S.App.BankKeeper.GetBalance(r.ctx(), bx.ModuleAddr(erc20types.ModuleName), baseName(g)).Amount.BigInt()
+	if kind == 1 {
+		esc = new(big.Int).Add(r.coinSupply(g), r.coinSupply(100+10*g))
+	}
 	// the holder (user 2) who approved the mixer
 	ua := big.NewInt(0)
 	if err := r.w.S.App.EvmKeeper.QueryContract(r.ctx(), r.owner.Address(), token, contract.GetFIP20().ABI, "allowance", &res, r.users[2].Address(), mixerAddr); err == nil {
@@ -174,9 +183,28 @@ func (s mixState) String() string {
 }
 
 func (r *run) mixed(nTx int) {
-	const g = 1
+	ext := os.Getenv("VERIF_C08_MIX_EXTERNAL") != "0"
+	if ext {
+		// the externally-owned token of the second part: a fresh FIP20 contract owned by r.owner, registered by governance
+		// with one bridge denomination on eth.  Both are op lines of the unified model, so they come BEFORE the first mixed
+		// transaction (mixed transactions move balances the unified model does not follow)
+		r.deploy(3)
+		r.regerc(3, []int{130})
+	}
+	r.mixedKind(0, nTx)
+	if ext {
+		// round 5: the same on an EXTERNALLY-owned token (kind 1: the module escrows the ERC-20 and mints / burns the coin)
+		r.mixedKind(1, nTx/2)
+	}
+}
+
+func (r *run) mixedKind(kind, nTx int) {
+	g := 1
+	if kind == 1 {
+		g = 3
+	}
 	ctx := r.ctx()
-	tokenContract := common.BigToAddress(big.NewInt(110)).Hex() // the external contract behind bridge denomination 110
+	tokenContract := common.BigToAddress(big.NewInt(int64(100 + 10*g))).Hex() // the external contract behind the bridge denomination 100+10g
 	pair, ok := r.w.S.App.Erc20Keeper.GetTokenPair(ctx, baseName(g))
 	if !ok {
 		return
@@ -187,9 +215,12 @@ func (r *run) mixed(nTx int) {
 		r.out.Stats.Extra["mixed:setup"] = err.Error()
 		return
 	}
-	eth.SetLastObservedBlockHeight(ctx, 1000, uint64(ctx.BlockHeight()))
+	eth.SetLastObservedBlockHeight(ctx, 1000, 1) // fx height 1: the real blocks of block_test.go run at the true (small) height
 	// tokens arrive over the bridge for user 0, who converts them into ERC-20 held by the mixer contract
 	if err := r.atomic(func(c sdk.Context) error {
+		if kind == 1 {
+			return nil // an externally-owned token is minted by its owner (refill)
+		}
 		return eth.SendToFxExecuted(c, &crosschaintypes.MsgSendToFxClaim{EventNonce: 1, BlockHeight: 1, TokenContract: tokenContract, Amount: si(1_000_000),
 			Sender: helpers.GenExternalAddr("eth"), Receiver: r.users[0].AccAddress().String(), TargetIbc: "", ChainName: "eth"})
 	}); err != nil {
@@ -198,8 +229,27 @@ func (r *run) mixed(nTx int) {
 	}
 	fip := contract.GetFIP20().ABI
 	holder := r.users[2]
+	ownerMint := func(to common.Address, n int64) error {
+		return r.atomic(func(c sdk.Context) error {
+			_, err := r.w.S.App.EvmKeeper.ApplyContract(c, r.owner.Address(), token, nil, fip, "mint", to, big.NewInt(n))
+			return err
+		})
+	}
 	refill := func() bool {
-		if r.balOf(token, mixerAddr).Cmp(big.NewInt(60)) < 0 {
+		if kind == 1 {
+			if r.balOf(token, mixerAddr).Cmp(big.NewInt(60)) < 0 {
+				if err := ownerMint(mixerAddr, 200); err != nil {
+					r.out.Stats.Extra["mixed:ext:mint"] = err.Error()
+					return false
+				}
+			}
+			if r.balOf(token, holder.Address()).Cmp(big.NewInt(60)) < 0 {
+				if err := ownerMint(holder.Address(), 150); err != nil {
+					r.out.Stats.Extra["mixed:ext:mint-holder"] = err.Error()
+					return false
+				}
+			}
+		} else if r.balOf(token, mixerAddr).Cmp(big.NewInt(60)) < 0 {
 			err := r.msg(&erc20types.MsgConvertCoin{Coin: sdk.NewCoin(baseName(g), si(200)), Receiver: mixerAddr.Hex(), Sender: r.users[0].AccAddress().String()})
 			if err != nil {
 				r.out.Stats.Extra["mixed:convert"] = err.Error()
@@ -207,13 +257,13 @@ func (r *run) mixed(nTx int) {
 			}
 		}
 		// the holder: a user with tokens who has approved the mixer (transferFrom by the mixer)
-		if r.balOf(token, holder.Address()).Cmp(big.NewInt(60)) < 0 {
+		if kind == 0 && r.balOf(token, holder.Address()).Cmp(big.NewInt(60)) < 0 {
 			if err := r.msg(&erc20types.MsgConvertCoin{Coin: sdk.NewCoin(baseName(g), si(150)), Receiver: holder.Address().Hex(), Sender: r.users[0].AccAddress().String()}); err != nil {
 				r.out.Stats.Extra["mixed:convert-holder"] = err.Error()
 				return false
 			}
 		}
-		if st := r.mixState(token); st.ua.Cmp(big.NewInt(40)) < 0 {
+		if st := r.mixStateK(token, kind, g); st.ua.Cmp(big.NewInt(40)) < 0 {
 			if err := r.atomic(func(c sdk.Context) error {
 				_, err := r.w.S.App.EvmKeeper.ApplyContract(c, holder.Address(), token, nil, fip, "approve", mixerAddr, big.NewInt(100))
 				return err
@@ -331,12 +381,13 @@ func (r *run) mixed(nTx int) {
 	if claimDirty {
 		fixed = append(fixed, []string{"t5", "e15"}, []string{"rm", "e10", "t2"})
 	}
+	deliverable := os.Getenv("VERIF_C08_BLOCKS") != "0" && r.probeDelivery()
 	for i := 0; i < nTx; i++ {
 		if !refill() {
 			return
 		}
 		syncPending()
-		pre := r.mixState(token)
+		pre := r.mixStateK(token, kind, g)
 		m := int(pre.m.Int64())
 		var steps []string
 		if i < len(fixed) {
@@ -426,6 +477,9 @@ func (r *run) mixed(nTx int) {
 				depth--
 			} else if s[0] == 'c' && depth > 0 {
 				continue
+			} else if kind == 1 && (s[0] == 'c' || s[0] == 'e') {
+				// refunds / inbound claims of an externally-owned token need coins locked by earlier outbound transfers: not driven
+				continue
 			}
 			filtered = append(filtered, s)
 		}
@@ -494,19 +548,50 @@ func (r *run) mixed(nTx int) {
 		if err := r.w.S.App.EvmKeeper.CreateContractWithCode(r.ctx(), mixerAddr, mixerCodeX(items)); err != nil {
 			panic(err)
 		}
-		pre = r.mixState(token)
-		preSum, preEsc := r.mixBooks(token, g)
-		err := r.atomic(func(c sdk.Context) error {
-			res, err := r.w.S.App.EvmKeeper.CallEVM(c, r.users[0].Address(), &mixerAddr, big.NewInt(0), 40_000_000, nil, true)
-			if err != nil {
-				return err
+		pre = r.mixStateK(token, kind, g)
+		preSum, preEsc := r.mixBooksK(token, kind, g)
+		var err error
+		if odd := os.Getenv("VERIF_C08_BLOCKS") != "0" && i%2 == 1; odd && deliverable {
+			// a signed MsgEthereumTx in a real block (ante handler, FinalizeBlock, Commit): block_test.go
+			err = r.deliver(mixerAddr, 25_000_000)
+			r.out.Count("mixed:path:signed MsgEthereumTx through FinalizeBlock")
+			if err != nil && !strings.HasPrefix(err.Error(), "vm: ") {
+				r.out.Stats.Extra["mixed:block:first-non-vm-error"] = strings.Join(steps, " ") + " => " + err.Error()
+				r.out.Count("mixed:path:FinalizeBlock:rejected-or-harness-error")
 			}
-			if res.Failed() {
-				return fmt.Errorf("vm: %s", res.VmError)
-			}
-			return nil
-		})
-		post := r.mixState(token)
+		} else if odd {
+			// the outermost layer a MsgEthereumTx reaches in this snapshot (see probeDelivery): a SIGNED transaction handed to
+			// the EVM message server (EthereumTx -> ApplyTransaction: transaction-level StateDB with the tx hash / index,
+			// the gas limit of the transaction, post-tx hooks, gas refund, logs) on a transaction-like branch
+			r.out.Count("mixed:path:signed MsgEthereumTx through the EVM message server (ApplyTransaction)")
+			err = r.atomic(func(c sdk.Context) error {
+				tx, err := evmx.SignedTx(c, r.w.S.App, r.users[0], mixerAddr, nil, nil, 25_000_000, []common.Address{crosschaintypes.GetAddress(), token})
+				if err != nil {
+					return fmt.Errorf("harness: %w", err)
+				}
+				res, err := evmx.Send(c, r.w.S.App, tx)
+				if err != nil {
+					return err
+				}
+				if res.Failed() {
+					return fmt.Errorf("vm: %s", res.VmError)
+				}
+				return nil
+			})
+		} else {
+			r.out.Count("mixed:path:EvmKeeper.CallEVM on a cache context")
+			err = r.atomic(func(c sdk.Context) error {
+				res, err := r.w.S.App.EvmKeeper.CallEVM(c, r.users[0].Address(), &mixerAddr, big.NewInt(0), 40_000_000, nil, true)
+				if err != nil {
+					return err
+				}
+				if res.Failed() {
+					return fmt.Errorf("vm: %s", res.VmError)
+				}
+				return nil
+			})
+		}
+		post := r.mixStateK(token, kind, g)
 		res := "ok"
 		if err != nil {
 			res = "err"
@@ -514,7 +599,7 @@ func (r *run) mixed(nTx int) {
 				r.out.Stats.Extra["mixed:first-error"] = strings.Join(steps, " ") + " => " + err.Error()
 			}
 		}
-		line := fmt.Sprintf("mixx 0 %s %s %s %s %s %s %s %s %s", pre.m, pre.s, pre.e, pre.ts, pre.al, pre.esc, pre.u, pre.ua, strings.Join(steps, " "))
+		line := fmt.Sprintf("mixx "+fmt.Sprint(kind)+" %s %s %s %s %s %s %s %s %s", pre.m, pre.s, pre.e, pre.ts, pre.al, pre.esc, pre.u, pre.ua, strings.Join(steps, " "))
 		r.out.Emit(line, res+" "+post.String())
 		// classes of the program.  The keeper-level conversion that matters is the first one that runs while the running
 		// StateDB already holds the mixer's balance slot (dirtied by a transfer of the caller or by crossChain's own
@@ -605,10 +690,13 @@ func (r *run) mixed(nTx int) {
 		}
 		cls := fmt.Sprintf("bridgeCall/cancel/executeClaim=%v cancel=%v executeClaim=%v crossChain=%v transferFrom=%v frame=%v keeper-call-in-frame=%v dirtyBefore=%v readBefore+writeAfter=%v",
 			firstB >= 0, hasC, hasE, hasX, hasF, hasFrame, nestedInFrame, dirtyBefore, readBefore && writeAfter)
+		if kind == 1 {
+			cls = "token=externally-owned " + cls
+		}
 		r.out.Count("mixed:" + res + ":" + cls)
 		r.out.Nontrivial("mix|" + res + "|" + cls)
 		// invariants of the token after the transaction: a change of (Σ balances − totalSupply) or (escrow − totalSupply)
-		postSum, postEsc := r.mixBooks(token, g)
+		postSum, postEsc := r.mixBooksK(token, kind, g)
 		r.rawSlots(token, []common.Address{mixerAddr, sinkAddr, holder.Address(), bx.Erc20ModuleAddr()},
 			[][2]common.Address{{mixerAddr, crosschaintypes.GetAddress()}, {holder.Address(), mixerAddr}}, "after a mixed transaction")
 		if preSum.Cmp(postSum) != 0 || preEsc.Cmp(postEsc) != 0 {
@@ -616,13 +704,27 @@ func (r *run) mixed(nTx int) {
 			if firstB >= 0 {
 				pc = map[byte]string{'b': "bridgeCall", 'c': "cancelSendToExternal", 'e': "executeClaim"}[flat[firstB][0]]
 			}
-			r.out.Violate(fmt.Sprintf("mixed transaction (mixed): precompile=%s, token dirtied by caller before call=%v, balance slot cached by a caller read before the call and written after it=%v, crossChain in the same transaction=%v, sub-call frame with swallowed failure=%v: steps [%s] from %s: Σ balances − totalSupply %s -> %s, escrow − totalSupply %s -> %s",
-				pc, dirtyBefore, readBefore && writeAfter, hasX && firstB >= 0, hasFrame, strings.Join(steps, " "), pre, preSum, postSum, preEsc, postEsc))
+			r.out.Violate(fmt.Sprintf("mixed transaction (mixed): precompile=%s, token dirtied by caller before call=%v, balance slot cached by a caller read before the call and written after it=%v, crossChain in the same transaction=%v, sub-call frame with swallowed failure=%v, token=%s: steps [%s] from %s: Σ balances − totalSupply %s -> %s, %s %s -> %s",
+				pc, dirtyBefore, readBefore && writeAfter, hasX && firstB >= 0, hasFrame, []string{"module-owned", "externally-owned"}[kind], strings.Join(steps, " "), pre, preSum, postSum,
+				[]string{"escrow − totalSupply", "ERC-20 escrowed by the module − coin supply over all denominations"}[kind], preEsc, postEsc))
 		}
 	}
 }
 
 // mixBooks: Σ balances − totalSupply and escrowed coins − totalSupply of the module-owned token
+func (r *run) mixBooksK(token common.Address, kind, g int) (*big.Int, *big.Int) {
+	if kind == 0 {
+		return r.mixBooks(token, g)
+	}
+	ts := r.totalSupply(token)
+	sum := new(big.Int)
+	for _, h := range []common.Address{mixerAddr, sinkAddr, bx.Erc20ModuleAddr(), r.owner.Address(), r.users[0].Address(), r.users[1].Address(), r.users[2].Address()} {
+		sum.Add(sum, r.balOf(token, h))
+	}
+	coins := new(big.Int).Add(r.coinSupply(g), r.coinSupply(100+10*g))
+	return sum.Sub(sum, ts), new(big.Int).Sub(r.balOf(token, bx.Erc20ModuleAddr()), coins)
+}
+
 func (r *run) mixBooks(token common.Address, g int) (*big.Int, *big.Int) {
 	ts := r.totalSupply(token)
 	sum := new(big.Int)
